@@ -93,6 +93,10 @@ func GenCost(rng *PRNG, maxBase int, stalls bool) CostModel {
 		c.SetupStallMaxUs = int(rng.LogRange(50, 40000))
 	}
 	if stalls && rng.Chance(0.3) {
+		c.TimerFireStallPct = []int{20, 50, 100}[rng.Intn(3)]
+		c.TimerFireStallMaxUs = int(rng.LogRange(20, 20000))
+	}
+	if stalls && rng.Chance(0.3) {
 		n := rng.Range(1, 3)
 		at := int64(0)
 		for i := 0; i < n; i++ {
